@@ -16,6 +16,6 @@ ASSUMPTIONS = [
 ]
 PROFILES = [
     S.profile(min_tasks=2, max_tasks=3, p_resources=100, task_constraints=(0, 0), optional_rules=(0, 0), resource_constraints=(0, 1), focus=S.RESOURCE_CONSTRAINTS, p_optional=15, horizon=(3, 8)),
-    S.profile(min_tasks=2, p_resources=100, task_constraints=(0, 2), optional_rules=(0, 1), resource_constraints=(1, 2), focus=S.RESOURCE_CONSTRAINTS),
+    S.profile(min_tasks=2, p_resources=100, task_constraints=(0, 2), optional_rules=(0, 1), resource_constraints=(1, 2), focus=S.RESOURCE_CONSTRAINTS, p_interleave=20),
 ]
 prop, run_shard, replay = _sound.make(ID, FAMILIES, "C04.soundness", PROFILES, 110, 1200)
